@@ -67,13 +67,23 @@ def setup(common=None):
             gens.append(None)
         else:
             gens.append(mpmath.mpf(num[0]) / num[1])
+    # the custom registry of the registry dimension: standard symbols with other values, and code units
+    from unyt import dimensions as D0
+    from unyt.unit_registry import UnitRegistry
+
+    creg = UnitRegistry()
+    for sym, val in (("Msun", 2.0e30), ("AU", 1.5e11), ("eV", 1.6e-19), ("me", 9.0e-31), ("pc", 3.0e16)):
+        creg.modify(sym, val)
+    for sym, val, dim in (("code_length", 3.0e19, D0.length), ("code_mass", 2.0e40, D0.mass), ("code_time", 3.0e15, D0.time),
+                          ("code_temperature", 1.0e4, D0.temperature)):
+        creg.add(sym, val, dim)
     units = []
     for u in tb["units"]:
-        U = unyt.Unit(u["s"])
+        U = unyt.Unit(u["s"], registry=creg) if u["c"] == "code" else unyt.Unit(u["s"])
         if float(U.base_offset) != 0.0:
             raise RuntimeError("offset unit in the C09 unit table: " + u["s"])
-        units.append({"s": u["s"], "U": U, "scale": float(U.base_value), "d": u["d"]})
-    _U.update(mp=mpmath, np=np, unyt=unyt, gens=gens, units=units, dimcheck=False)
+        units.append({"s": u["s"], "U": U, "scale": float(U.base_value), "d": u["d"], "c": u["c"]})
+    _U.update(mp=mpmath, np=np, unyt=unyt, gens=gens, units=units, dimcheck=False, creg=creg, dreg=unyt.unit_registry.default_unit_registry)
     # the declared dimension of every spelling is what the library resolves (else the table, not the library, is wrong)
     from unyt import dimensions as D
 
@@ -154,10 +164,22 @@ def _digest(x, parent):
     return out
 
 
+def _unit_in(s, registry):
+    """the unit a spelling means in a registry (memoised per registry object)"""
+    memo = _U.setdefault("umemo", {})
+    k = (s, id(registry))
+    if k not in memo:
+        memo[k] = _U["unyt"].Unit(s, registry=registry)
+    return memo[k]
+
+
 def _make(init):
     np = _U["np"]
     unyt = _U["unyt"]
     u = _U["units"][init["u"] - 1]
+    registry = _U["creg"] if init.get("reg") == "custom" else None
+    scale_in = float(_unit_in(u["s"], registry).base_value) if registry is not None else u["scale"]
+    u = dict(u, scale=scale_in)
     vals = [float(sv_value(sv) / _U["mp"].mpf(u["scale"])) for sv in init["v"]]
     dt = init["dt"]
     if dt[0] in "iu":
@@ -175,11 +197,11 @@ def _make(init):
     sh = init["sh"]
     parent = None
     if sh == "q":
-        x = unyt.unyt_quantity(np.array(vals[0], dtype=npdt)[()], u["s"], name="x0")
+        x = unyt.unyt_quantity(np.array(vals[0], dtype=npdt)[()], u["s"], name="x0", registry=registry)
         if x.dtype != np.dtype(npdt):
-            x = unyt.unyt_quantity(np.array(vals[0], dtype=npdt), u["s"], name="x0")
+            x = unyt.unyt_quantity(np.array(vals[0], dtype=npdt), u["s"], name="x0", registry=registry)
     elif sh == "a":
-        x = unyt.unyt_array(np.array(vals, dtype=npdt), u["s"], name="x0")
+        x = unyt.unyt_array(np.array(vals, dtype=npdt), u["s"], name="x0", registry=registry)
     elif sh == "v1":
         parent = unyt.unyt_array(np.array([PAD, vals[0], vals[1], PAD], dtype=npdt), u["s"], name="p0")
         x = parent[1:3]
@@ -191,8 +213,19 @@ def _make(init):
     return x, parent
 
 
-def _call(x, st):
-    tus = _U["units"][st["tu"] - 1]["s"]
+def _target(treg, st):
+    """(what is passed as the target, the Unit it means): a string is read in the input's registry (treg: the registry the
+    history's object was created in; results stay in it)"""
+    s = _U["units"][st["tu"] - 1]["s"]
+    tf = st.get("tf", "str")
+    if tf == "udef":
+        U = _unit_in(s, _U["dreg"])
+        return U, U
+    U = _unit_in(s, treg)
+    return (s if tf == "str" else U), U
+
+
+def _call(x, st, tus):
     kw = {}
     for name in st["kw"]["pass"]:
         n, d = st["kw"][name]
@@ -224,18 +257,20 @@ def observe(case):
             snap.add(st["exp"]["v"])
         snap.add(st["cand"])
     x, parent = _make(init)
+    treg = _U["creg"] if init.get("reg") == "custom" else _U["dreg"]
     ev = []
     tol = _tol(init["dt"])  # the coarsest precision any object of this trace had so far
     with warnings.catch_warnings(), np.errstate(all="ignore"):
         warnings.simplefilter("ignore")
         for st in case["h"]:
-            tu = _U["units"][st["tu"] - 1]
+            tgt, tU = _target(treg, st)
+            tu = {"U": tU, "scale": float(tU.base_value)}
             inplace = st["en"] in ("convert_to_units", "convert_to_equivalent")
             pre = _digest(x, parent)
             obs = {"k": "ok", "exc": "", "v": [], "rep": [], "approx": [], "ueq": True, "unit": "", "cls": "", "dt": "", "frame": True}
             ret = None
             try:
-                ret = _call(x, st)
+                ret = _call(x, st, tgt)
             except Exception as ex:  # noqa: BLE001
                 obs["k"] = "raise"
                 obs["exc"] = type(ex).__name__
@@ -277,8 +312,9 @@ def observe(case):
                 if st["fo"] and st["en"] != "to_value" and not inplace:
                     x, parent = ret, None
             e = {k: st[k] for k in ("en", "eq", "k", "tu", "fo")}
+            e["tf"] = st.get("tf", "str")
             e["obs"] = obs
             ev.append(e)
-    tinit = {"d": init["d"], "u": init["u"], "dt": init["dt"], "sh": init["sh"],
+    tinit = {"d": init["d"], "u": init["u"], "dt": init["dt"], "sh": init["sh"], "reg": init.get("reg", "default"),
              "v": [{"k": "sv", "r": list(sv["r"]), "e": list(sv["e"]), "id": 0} for sv in init["v"]]}
     return {"init": tinit, "ev": ev}
